@@ -27,6 +27,7 @@ def run(ctx):
     nochange(ctx)
     bcast(ctx)
     announce(ctx)
+    bcast_errstop(ctx)
 
 
 def tx2(ctx):
@@ -207,10 +208,44 @@ def nochange(ctx):
     none_t = m.get(0, t["else"])
     R.require(b.edge_dominates(some_e, idb[0].bb) and idb[0].bb not in b.reachable(none_t), "book-iff-seq", idb[0].where(), "insert_db is reached only when the transaction has sequences",
               fail_msg="insert_db (consuming a version in bookkeeping) is reachable although the transaction produced no change rows")
+    # ... and conversely: "nothing to book" (Ok(None)) is answered only when MAX(seq) is NULL.  Any other Ok(None) - e.g. a
+    # shortcut on the last statement's row count - commits changes whose version is neither booked nor announced
+    nones = []
+    for bb in b.live_blocks():
+        for i, st in enumerate(b.blocks[bb]["s"]):
+            if st[0] == "A" and st[1] == [0] and st[2][0] == "agg" and isinstance(st[2][1], dict) and st[2][1].get("variant") == "Ok":
+                org = flow.origins(b, op_place(st[2][2][0]), at=(bb, i)) if st[2][2] and op_place(st[2][2][0]) is not None else set()
+                inner = [o for o in org if o.kind in ("agg", "aggregate")]
+                # the payload is an Option aggregate: find it syntactically
+                pl = op_place(st[2][2][0]) if st[2][2] else None
+                isnone = False
+                if pl is not None:
+                    for d in b.defs.get(pl[0], []):
+                        if d[2] == "assign" and d[3][1][0] == "agg" and isinstance(d[3][1][1], dict) and d[3][1][1].get("adt") == "core::option::Option" and d[3][1][1].get("variant") == "None" \
+                                and (d[0] == bb or b.can_reach(d[0], bb)):
+                            isnone = True
+                if isnone:
+                    nones.append(bb)
+    none_e = (sws[0], none_t)
+    if R.anchor(nones, "ok-none", "`Ok(None)` return(s) of insert_local_changes"):
+        early = [x for x in nones if not b.edge_dominates(none_e, x)]
+        R.require(not early, "none-iff-no-seq", b.where(early[0] if early else nones[0]), "every Ok(None) return lies behind the MAX(seq) IS NULL arm (%d return(s))" % len(nones),
+                  fail_msg="insert_local_changes can answer Ok(None) without having found MAX(seq) NULL: a transaction that did change rows commits, its version is consumed by cr-sqlite, "
+                           "but it is neither booked nor announced (the client gets no version; the next write leaves a gap in the node's own versions)")
     # the version booked is crsql_peek_next_db_version()
     sq = [s.sql for s in sqlinv.inventory(F, [b])]
     R.require(any("crsql_peek_next_db_version" in s for s in sq), "peek-next", b.where(), "the version is read from crsql_peek_next_db_version()")
     R.require(any(re.search(r"MAX\(seq\).*FROM\s+crsql_changes.*site_id\s*=\s*\?.*db_version\s*=\s*\?", s, re.I | re.S) for s in sq), "max-seq", b.where(), "last_seq is MAX(seq) of this site's rows of that db_version")
+
+
+def bcast_errstop(ctx):
+    from .C05 import chunker_errstop
+    F = ctx.F
+    R = ctx.rule("C07.errstop", "K2", "broadcast_changes: once the chunker reports a row error no further chunk of that version is announced")
+    fam = [x for x in F.find(r"^klukai_types::broadcast::broadcast_changes") if any(c.name() == "next" and "ChunkedChanges" in c.self_ty for c in x.calls)]
+    if not R.anchor(fam, "broadcast_changes", "closure of broadcast_changes iterating the chunker"):
+        return
+    chunker_errstop(R, fam[0], r"^tokio::task::spawn::spawn$|CorroSender::<T>::(send|try_send|blocking_send)$", "")
 
 
 def bcast(ctx):
